@@ -180,21 +180,37 @@ def Seq.setItem (s : Seq α) (i : Int) (sym : α) : Except Err (Seq α) :=
     | .error e => .error e
     | .ok k => .ok { s with codes := s.codes.set k c }
 
-/-- `sequence[a:b] = symbols` (numpy assignment: equal length, or length 1 broadcast). -/
+/-- numpy slice assignment `codes[a:b] = cs`: equal length, or length 1 broadcast. -/
+def placeCodes (codes : List Nat) (a b : Option Int) (cs : List Nat) : Except Err (List Nat) :=
+  let (lo, hi) := sliceBounds codes.length a b
+  let n := hi - lo
+  let mid? : Option (List Nat) :=
+    if cs.length = n then some cs
+    else match cs with
+      | [c] => some (List.replicate n c)
+      | _ => none
+  match mid? with
+  | some mid => .ok (codes.take lo ++ mid ++ codes.drop hi)
+  | none => .error .valueError
+
+/-- `sequence[a:b] = symbols`. -/
 def Seq.setSlice (s : Seq α) (a b : Option Int) (syms : List α) : Except Err (Seq α) :=
   match encode s.alph syms with
   | .error e => .error e
   | .ok cs =>
-    let (lo, hi) := sliceBounds s.codes.length a b
-    let n := hi - lo
-    let mid? : Option (List Nat) :=
-      if cs.length = n then some cs
-      else match cs with
-        | [c] => some (List.replicate n c)
-        | _ => none
-    match mid? with
-    | some mid => .ok { s with codes := s.codes.take lo ++ mid ++ s.codes.drop hi }
-    | none => .error .valueError
+    match placeCodes s.codes a b cs with
+    | .ok c => .ok { s with codes := c }
+    | .error e => .error e
+
+/-- `sequence[a:b] = ndarray` (repaired code: values must fit the code dtype unless the dtype
+is the same already). -/
+def Seq.setSliceCodes (s : Seq α) (sameDtype : Bool) (a b : Option Int) (vals : List Int) : Except Err (Seq α) :=
+  if !sameDtype && vals.any (fun v => decide (v < 0 ∨ (2 : Int) ^ dtypeBits s.alph.length ≤ v)) then
+    .error .alphabetError
+  else
+    match placeCodes s.codes a b (vals.map Int.toNat) with
+    | .ok c => .ok { s with codes := c }
+    | .error e => .error e
 
 /-- `a + b`. -/
 def Seq.add (a b : Seq α) : Except Err (Seq α) :=
